@@ -157,7 +157,12 @@ func ext۰reflect۰New(fr *frame, args []value) value {
 
 func ext۰reflect۰SliceOf(fr *frame, args []value) value {
 	// Signature: func (t reflect.rtype) Type
-	return makeReflectType(rtype{types.NewSlice(args[0].(iface).v.(rtype).t)})
+	rt, ok := args[0].(iface).v.(rtype)
+	if !ok {
+		// reflect.SliceOf(nil) dereferences a nil *rtype in the runtime
+		panic(fr.i.runtimeError("invalid memory address or nil pointer dereference (reflect.SliceOf(nil))"))
+	}
+	return makeReflectType(rtype{types.NewSlice(rt.t)})
 }
 
 func ext۰reflect۰TypeOf(fr *frame, args []value) value {
